@@ -69,6 +69,11 @@ func init() {
 	})
 }
 
+const c19PwLen = 10
+
+// c19Creds holds every worker's password back to back.
+var c19Creds = make([]byte, 65*c19PwLen)
+
 var (
 	c19TraceMu   sync.Mutex
 	c19Trace     []int
@@ -92,6 +97,11 @@ func c19Worker(seed int64, id int, useUDP bool, concurrent bool) (transcript []s
 	r := rng(seed+int64(id)*1009, "c19worker")
 	cfg := defaultCfg(r)
 	cfg.SID = 0x0a000000 + uint32(id+1)
+	// the callers' passwords are adjacent pieces of one buffer (credentials read from one
+	// file): each has spare capacity behind it that belongs to its neighbour
+	cfg.Password = rbytes(r, c19PwLen)
+	pw := c19Creds[(id%64)*c19PwLen : (id%64)*c19PwLen+c19PwLen]
+	copy(pw, cfg.Password)
 	b := refbmc.New(cfg)
 	f1, _, _ := genFSR(r, 3, 6)
 	f2, _, _ := genFSR(r, 2, 4)
@@ -209,7 +219,7 @@ func c19Worker(seed int64, id int, useUDP bool, concurrent bool) (transcript []s
 	}
 	var sess *bmc.V2Session
 	open := func(k int) {
-		opts := &bmc.V2SessionOpts{SessionOpts: bmc.SessionOpts{Username: cfg.Username, Password: cfg.Password, MaxPrivilegeLevel: ipmi.PrivilegeLevelAdministrator}}
+		opts := &bmc.V2SessionOpts{SessionOpts: bmc.SessionOpts{Username: cfg.Username, Password: pw, MaxPrivilegeLevel: ipmi.PrivilegeLevelAdministrator}}
 		if k >= 0 {
 			opts.CipherSuites = []ipmi.CipherSuite{libSuite(cfg.Suites[k%len(cfg.Suites)])}
 		}
